@@ -20,6 +20,7 @@ The analysis is done on MIR places (stores, `&mut` borrows, call destinations of
 dominators; callee effects are followed through local DrawTarget methods for the new field only ("this call writes F").
 """
 from util import *
+from terms import subterms
 
 DTQ = 'raqote::draw_target::DrawTarget'
 AUDITED = ['width', 'height', 'rasterizer', 'current_point', 'first_point', 'buf', 'clip_stack', 'layer_stack', 'transform']
@@ -268,8 +269,32 @@ def r10_6(ctx):
     if not new:
         ctx.ok(R, 'draw_target::DrawTarget|no unaudited field', '-', 'fields are exactly the audited nine: no memory beyond visible state, rasteriser and path cursor')
         return
+    # fields of a memo whose lemma another rule verifies (R06.3: the memoised opacity mask, a uniform vector validated on
+    # every use against the length and value wanted) hold nothing the caller can observe
+    memo_fields = set()
+    try:
+        import dt
+        pb = ctx.F.body(DTQ + '::pop_layer')
+        if pb is not None:
+            pan = ctx.an(pb)
+            for bi, d, ct in calls_in(ctx, pb):
+                if d == DTQ + '::composite' and len(ct[2]) > 2:
+                    m = strip_all(ct[2][2])
+                    if m[0] == 'agg' and m[3] == 'Some':
+                        memo = dt.uniform_memo(ctx, pb, pan, m[4][0][1], bi)
+                        if memo is not None:
+                            for x in subterms(m[4][0][1]):
+                                pass
+                            # the vector field and its tag field, if any: the new fields pop_layer touches
+                            touched = set(f for k, f, bb, i in MethodFacts(pb).ev if f in new)
+                            memo_fields |= touched
+    except Exception:
+        memo_fields = set()
     for F in new:
         key = 'draw_target::DrawTarget.%s' % F
+        if F in memo_fields:
+            ctx.ok(R, key + '|validated memo', '-', 'new field %s belongs to a memo that is validated on every use (R06.3 memo lemma)' % F)
+            continue
         # cross-call reads: a read not dominated by a whole write of F in the same method
         cross = []
         scratch = 0
